@@ -50,7 +50,7 @@ META = {
     'components_real': ['TapeRecorder sampling decision, force / discard / skip handling', 'S3TapeCassette._should_sample', 'random.Random (history part)'],
     'components_stub': ['scripted RNG (table part)', 'spy cassette', 'S3 bucket'],
     'budgets': {'quick': {'seconds': 25}, 'thorough': {'seconds': 300}},
-    'required_probes': {'quick': ['table_row'], 'thorough': ['table_row', 'history_same_seed', 'history_paired', 'history_mixed_classes', 's3_calculator', 'straggler_force', 'operation_inherited_by_classes_with_other_parameters', 'parameters_applied_after_first_run', 'abort_fails_on_discard', 'straggler_overlaps_next_operation']},
+    'required_probes': {'quick': ['table_row'], 'thorough': ['table_row', 'history_same_seed', 'history_paired', 'history_mixed_classes', 's3_calculator', 'straggler_force', 'operation_inherited_by_classes_with_other_parameters', 'parameters_applied_after_first_run', 'abort_fails_on_discard', 'straggler_overlaps_next_operation', 'discard_after_recording_was_switched_off', 'class_without_recording_parameters']},
 }
 
 
@@ -284,13 +284,17 @@ def history_mixed(tape):
     recorder._random = rng
     classes = []
     for name in R.OP_NAMES[:1 + tape.draw(4)]:
+        # how the class got its parameters: a RecordingParameters object, keyword arguments of the decorator, or not at all
         classes.append((name, {'sampling_rate': tape.choice(RATES), 'ignore_enforced_sampling': bool(tape.draw(2)),
-                               'skipped': tape.draw(5) == 4}))
+                               'skipped': tape.draw(5) == 4}, tape.choice(['object', 'kwargs', 'none'])))
     n = 3 + tape.draw(12)
     run.probe('history_mixed_classes')
     run.nontrivial = True
     for i in range(n):
-        name, params = tape.choice(classes)
+        name, params, style = tape.choice(classes)
+        if style == 'none':
+            params = {'sampling_rate': 1.0, 'ignore_enforced_sampling': False, 'skipped': False}      # the documented defaults
+            run.probe('class_without_recording_parameters')
         forced, discard = tape.draw(3) == 2, tape.draw(5) == 4
         outcome = tape.choice(OUTCOMES)
         draw = tape.choice(DRAWS)
@@ -306,7 +310,9 @@ def history_mixed(tape):
         spy.abort_raises = discard and tape.draw(4) == 3
         if spy.abort_raises:
             run.probe('abort_fails_on_discard')
-        R.record_once(simple_spec(name, steps, params), run, spy, recorder=recorder)
+        sp = simple_spec(name, steps, None if style == 'none' else params)
+        sp.op.params_style = 'kwargs' if style == 'kwargs' else 'object'
+        R.record_once(sp, run, spy, recorder=recorder)
         spy.abort_raises = False
         calls = [c[0] for c in spy.calls[before:]]
         got = 'none' if not calls else '+'.join(c for c in calls if c != 'create')
@@ -337,6 +343,8 @@ def inherited_operation(tape):
     def body():
         if plan['forced']:
             recorder.force_sample_recording()
+        if plan.get('switch_off'):
+            recorder.disable_recording()        # recording is switched off mid-operation (an explicit discard still wins)
         if plan['discard']:
             try:
                 recorder.discard_recording()
@@ -376,6 +384,9 @@ def inherited_operation(tape):
         cls, params, late = entry
         eff = defaults if late else params
         plan.update(forced=tape.draw(3) == 2, discard=tape.draw(4) == 3, outcome=tape.choice(OUTCOMES), swallow=bool(tape.draw(2)))
+        plan['switch_off'] = plan['discard'] and tape.draw(3) == 2
+        if plan['switch_off']:
+            run.probe('discard_after_recording_was_switched_off')
         draw = tape.choice(DRAWS)
         rng.values = [draw]
         before_draws, before = rng.draws, len(spy.calls)
@@ -392,6 +403,7 @@ def inherited_operation(tape):
         except IOError:
             ended = plan['outcome'] if (spy.abort_raises and not plan['swallow'] and not eff['skipped']) else 'storage error in the service'
         spy.abort_raises = False
+        recorder.enable_recording()
         calls = [c[0] for c in spy.calls[before:]]
         got = 'none' if not calls else '+'.join(c for c in calls if c != 'create')
         exp = expected_keep(eff['skipped'], eff['sampling_rate'], plan['forced'], eff['ignore_enforced_sampling'], plan['discard'], draw)
